@@ -42,3 +42,13 @@ def documented_range():
     check(h >= 0, "non-negative up to the documented bound")
     check(h < P4, "fits an EO int up to the documented bound")
     observe("hash", h)
+
+
+def two_calls():
+    """the hash of a challenge does not depend on which challenges were hashed before it in the same process"""
+    c1 = sym_int("first", 0, P3 - 1)
+    c2 = sym_int("challenge", 0, P3 - 1)
+    h1 = server_verification_hash(c1)
+    h2 = server_verification_hash(c2)
+    check(h2 == ohash(c2), "second hash in a process equals the client's arithmetic")
+    observe("hashes", [h1, h2])
